@@ -150,6 +150,9 @@ var c12Embeds = []struct {
 	{"left-of-equality", "${{ %s == fromJSON('null') }}", true},
 	{"both-sides-of-and", "${{ %[1]s && %[1]s }}", true},
 	{"second-placeholder", "a ${{ 'x' }} b ${{ %s }}", false},
+	{"after-placeholder-and-apostrophe", "${{ 'x' }}'s build with ${{ %s }}", false},
+	{"between-apostrophes", "${{ 'x' }}'${{ %s }} isn't", false},
+	{"after-placeholder-and-quote-brace-soup", "${{ 'x' }}\"{(['${{ 'y' }}}}${{ %s }}", false},
 	{"after-text", "prefix-%s", false}, // replaced below: text before one placeholder
 }
 
@@ -164,7 +167,7 @@ func TestC12(t *testing.T) {
 			pinned, _ := os.ReadFile("testdata/context_availability_table.md")
 			r.Extra["pinned_table_equals_repo_copy_of_official_page"] = strings.Contains(string(b), strings.TrimSpace(string(pinned)))
 		}
-		r.Rule = "complete enumeration: every template leaf path of the workflow-syntax model (found in generated clean workflows) x {12 context names, 5 special functions} x embeddings {bare, comparison on either side (also with a null / unknown other side), function argument, nested ||/&&/! forms, index position, negation, second placeholder, after text; upper-case spelling alternated}; every leaf class is then revisited in up to 5 (thorough 11) other generated workflows with shuffled key order and every 7th probe (thorough: 3 further complete instances first). The governing table key is the longest table key that is a prefix of the leaf's key path (none => nothing allowed). Oracle: pinned transcription of GitHub's context availability table; 'not allowed' diagnostic on the probe line <=> not listed. Every pair is non-trivial; distinct = (leaf path + configuration, name, embedding)."
+		r.Rule = "complete enumeration: every template leaf path of the workflow-syntax model (found in generated clean workflows) x {12 context names, 5 special functions} x embeddings {bare, comparison on either side (also with a null / unknown other side), function argument, nested ||/&&/! forms, index position, negation, second placeholder, after text, after a placeholder that is directly followed by an apostrophe / quote / bracket; upper-case spelling alternated}; every leaf class is then revisited in up to 5 (thorough 11) other generated workflows with shuffled key order and every 7th probe (thorough: 3 further complete instances first). The governing table key is the longest table key that is a prefix of the leaf's key path (none => nothing allowed). Oracle: pinned transcription of GitHub's context availability table; 'not allowed' diagnostic on the probe line <=> not listed. Every pair is non-trivial; distinct = (leaf path + configuration, name, embedding)."
 		r.Assumptions = []string{"pinned table: harness/checks/testdata/context_availability_table.md (copied from the official page as shipped in scripts/generate-availability/testdata/ok.md)", "for `jobs`, an `undefined variable \"jobs\"` diagnostic counts as the rejection", "not asserted: a lone expression standing for a whole mapping that the table lists entry-wise (container.env / services.<id>.env given as one expression)"}
 		done := map[string]bool{}
 		instances := map[int]int{}
